@@ -1,9 +1,11 @@
 import Pw.C01.Driver
+import Pw.C16.Driver
 open Proto
 
 /-- all request handlers; each property contributes `CNN.handlers` -/
 def handlers : List (String × Handler) :=
   C01.handlers
+  ++ C16.handlers
 
 def dispatch (line : String) : String :=
   let (fn, args) := parseLine line
